@@ -94,7 +94,38 @@ def check_schema(inp):
     return out
 
 
-CHECKS = {"schema": check_schema}
+def check_schema_accepted(inp):
+    """
+    the statement quantifies over ACCEPTED vectors: whatever string the constructor accepts (grammar or not - that is
+    C04's business) must serialise to schema-valid JSON.  Strings the constructor rejects are outside the domain.
+    """
+    ver, s = inp["ver"], inp["s"]
+    if ref.classify(ver, s)[0] == ref.OK:
+        return check_schema(inp)
+    k, o = obs.construct(ver, s)
+    if k != "ok":
+        return []
+    inp["_accepted"] = True
+    fails = []
+    for sort in (False, True):
+        for minimal in (False, True):
+            try:
+                doc = json.loads(json.dumps(o.as_json(sort=sort, minimal=minimal)))
+            except BaseException as e:  # noqa
+                fails.append(failure("JSON-serialisable dict", "%s: %s" % (type(e).__name__, e), note="accepted string outside the grammar"))
+                continue
+            sver = {"2": "2.0", "4": "4.0"}.get(ver) or (doc.get("version") if doc.get("version") in ("3.0", "3.1") else "3.1")
+            for sig, msg in errors_of(sver, doc):
+                fails.append(failure("valid against cvss-v%s.json" % sver, msg, note="the constructor accepted %r (not a grammar vector); %s" % (s, sig)))
+    seen, out = set(), []
+    for f in fails:
+        if f["observed"] not in seen:
+            seen.add(f["observed"])
+            out.append(f)
+    return out
+
+
+CHECKS = {"schema": check_schema, "schema_accepted": check_schema_accepted}
 
 
 def covering():
@@ -136,9 +167,32 @@ def sweep_work(shard, n, seed):
     return part
 
 
+def ball_part(shard, n_seeds, seed):
+    """complete one-edit neighbourhoods: every member the constructor accepts outside the grammar goes through the check"""
+    from . import c04
+    part = runner.Part(PID)
+    found, tried = c04.accepted_outside_grammar(shard, n_seeds, seed, 10)
+    part.count(None, classes=("one-edit-ball-member-tried",), n=tried)
+    for ver, t in found[:200]:
+        part.classes["ball-member-accepted-outside-grammar"] += 1
+        part.check("schema_accepted", check_schema_accepted, {"ver": ver, "s": t})
+    return part
+
+
 def hyp_part(n_examples, shard):
     from hypothesis import given, strategies as st
     part = runner.Part(PID)
+
+    @runner.seeded(10, 100 + shard)
+    @runner.hyp_settings(max(1, n_examples // 2))
+    @given(gen.version_key().flatmap(lambda v: st.tuples(st.just(v), gen.mutated(v, max_edits=2))))
+    def t2(c):
+        ver, (s, ops) = c
+        inp = {"ver": ver, "s": s}
+        part.check("schema_accepted", check_schema_accepted, inp, hyp=True)
+        acc = inp.pop("_accepted", False)
+        part.count(inp, nontrivial=acc, classes=("mutant", "mutant-accepted-by-library" if acc else "mutant-rejected-or-grammar"))
+    runner.run_hyp(part, t2, "C10.hyp.mutants")
 
     @runner.seeded(10, shard)
     @runner.hyp_settings(n_examples)
@@ -162,14 +216,16 @@ def run(tier, t0):
         part.count(None, classes=("covering",))
         part.check("schema", check_schema, {"ver": ver, "s": s})
     part.merge(runner.hyp_shards("vf.props.c10", "hyp_part", 4800 if tier == "quick" else 160000))
+    for p in runner.parallel("vf.props.c10", "ball_part", [(sh, 1 if tier == "quick" else 12, runner.SEED) for sh in range(runner.NPROC)]):
+        part.merge(p)
     for p in runner.parallel("vf.props.c10", "sweep_work", [(sh, 2000 if tier == "quick" else 40000, runner.SEED) for sh in range(runner.NPROC)]):
         part.merge(p)
     rule = ("accepted vectors of every version (uniform presence of optional metrics, official order half of the time) x "
             "all four (sort, minimal) combinations inside each case; covering set: every (metric, value) of every version "
             "and minor; sweep: seeded random classes of the v2/v3/v4 score quotients in random spellings (C09's sampler), one "
-            "option pair per document in rotation. non-trivial = vector with at least one optional metric defined; distinct "
+            "option pair per document in rotation; 1-2-edit mutants: whatever the constructor accepts must validate too. non-trivial = vector with at least one optional metric defined; distinct "
             "by hash (sweep classes counted). Each Hypothesis/covering case validates 4 documents.")
     return runner.finish(part, tier, t0, rule,
                          ["pinned copies of FIRST's schemas (vf/spec_data/schemas); draft chosen from $schema; numbers parsed as Decimal so multipleOf 0.1 is exact",
                           "the schemas allow additional properties: library v4 field names that differ from the schema's are not constrained by it"],
-                         required=("covering", "v2", "v33.0", "v33.1", "v4", "official-order", "other-order", "sweep:v2", "sweep:v3", "sweep:v4"))
+                         required=("covering", "v2", "v33.0", "v33.1", "v4", "official-order", "other-order", "sweep:v2", "sweep:v3", "sweep:v4", "mutant", "one-edit-ball-member-tried"))
